@@ -98,8 +98,10 @@ class WorldScenario:
         for _ in range(r.pick([1, 1, 2])):
             x = r.random()
             n = r.pick(names)
-            if x < 0.6:
+            if x < 0.55:
                 out.append(n)
+            elif x < 0.65:
+                out.append(n[:-1] + "[" + n[-1] + "#]")  # fnmatch character class, no * or ?
             elif x < 0.8:
                 out.append(n[:1] + "*")
             elif x < 0.9:
@@ -205,6 +207,9 @@ class WorldScenario:
             add("edit_spec", {"op": "edit_spec", "t": r.pick(list(w.model.targets))})
         add("advance", {"op": "advance", "dt": r.pick([1, 1, 2, 5]) * self.knobs["granularity"]})
         add("tick", {"op": "advance", "dt": 1.0 / 1024})
+        if self.ops and self.ops[-1].get("op") == "gwf" and wt.get("repeat_last", 0.5) > 0:
+            last = {k: v for k, v in self.ops[-1].items() if k not in ("interleave",)}
+            cands.append((wt.get("repeat_last", 0.5) * (3.0 if last["argv"][:1] == ["cancel"] else 1.0), last))
         if not cands:
             return None
         return r.weighted(cands)
